@@ -123,6 +123,16 @@ func c18Doc(seed uint64, benign bool) (string, *c18Tainter) {
 			} else if r.Chance(1, 6) {
 				e.Text = t.val("unparsable-date")
 			}
+			// every other line the standard allows below an event: a page may
+			// show any of them next to the date and the place
+			if r.Chance(1, 2) {
+				e.Extra = append(e.Extra, &gen.Spec{Tag: "AGE", Value: t.val("event-detail")}, &gen.Spec{Tag: "CAUS", Value: t.val("event-detail")}, &gen.Spec{Tag: "TYPE", Value: t.val("type")},
+					&gen.Spec{Tag: "AGNC", Value: t.val("event-detail")}, &gen.Spec{Tag: "RELI", Value: t.val("event-detail")}, &gen.Spec{Tag: "NOTE", Value: t.val("note")},
+					&gen.Spec{Tag: "ADDR", Value: t.val("event-detail"), Kids: []*gen.Spec{{Tag: "CITY", Value: t.val("event-detail")}, {Tag: "CTRY", Value: t.val("event-detail")}}},
+					&gen.Spec{Tag: "SOUR", Value: "@S2@", Kids: []*gen.Spec{{Tag: "PAGE", Value: t.val("source-citation")}, {Tag: "QUAY", Value: t.val("event-detail")}}},
+					&gen.Spec{Tag: "OBJE", Kids: []*gen.Spec{{Tag: "FILE", Value: t.val("event-detail")}, {Tag: "TITL", Value: t.val("event-detail")}}},
+					&gen.Spec{Tag: "_PRIM", Value: t.val("custom-tag-value")})
+			}
 		}
 		p.Extra = append(p.Extra,
 			&gen.Spec{Tag: "NOTE", Value: t.val("note")},
@@ -154,6 +164,10 @@ func c18Doc(seed uint64, benign bool) (string, *c18Tainter) {
 			if r.Chance(1, 3) {
 				e.Text = t.val("unparsable-date")
 			}
+			if r.Chance(1, 2) {
+				e.Extra = append(e.Extra, &gen.Spec{Tag: "TYPE", Value: t.val("type")}, &gen.Spec{Tag: "NOTE", Value: t.val("note")}, &gen.Spec{Tag: "AGNC", Value: t.val("event-detail")},
+					&gen.Spec{Tag: "HUSB", Kids: []*gen.Spec{{Tag: "AGE", Value: t.val("event-detail")}}}, &gen.Spec{Tag: "WIFE", Kids: []*gen.Spec{{Tag: "AGE", Value: t.val("event-detail")}}})
+			}
 		}
 		f.Extra = append(f.Extra, &gen.Spec{Tag: "NOTE", Value: t.val("note")})
 	}
@@ -169,6 +183,8 @@ func c18Doc(seed uint64, benign bool) (string, *c18Tainter) {
 
 // c18Structure tokenises a page: the sequence of (type, tag, sorted attribute
 // names), the elements/attributes named after taint tokens, and nesting errors.
+var c18PlainHandler = regexp.MustCompile(`^\s*location\.href='[^'\\\r\n]*'\s*;?\s*$`)
+
 func c18Structure(body []byte) (seq []string, injected []string, nesting string) {
 	seq, injected, nesting, _ = c18StructureOff(body)
 	return
@@ -205,8 +221,12 @@ func c18StructureOff(body []byte) (seq []string, injected []string, nesting stri
 						injected = append(injected, "script-scheme target "+a.Key+" on <"+t.Data+">")
 					}
 				}
-				if strings.HasPrefix(lk, "on") && strings.Contains(a.Val, "zq") && strings.ContainsAny(a.Val, `"'`) && !strings.HasPrefix(strings.TrimSpace(a.Val), "location.href='") {
-					injected = append(injected, "event handler "+a.Key+" holding a tainted value with a quote")
+				// an event handler is script: a value from the file may only be
+				// there inside the one string literal of location.href='...', and
+				// that literal must run to the end of the handler (a quote, a
+				// backslash or a line break from the file would end or bend it)
+				if strings.HasPrefix(lk, "on") && strings.Contains(strings.ToLower(a.Val), "zq") && !c18PlainHandler.MatchString(a.Val) {
+					injected = append(injected, "event handler "+a.Key+" in which a value from the file is not confined to the string of location.href='...'")
 				}
 			}
 			sort.Strings(attrs)
